@@ -415,6 +415,35 @@ def write_out(fmt: str, value):
     raise ValueError(fmt)
 
 
+import re as _re
+
+_PLACE = _re.compile(r'\{([0-9a-f]{2,6})\}')
+
+
+def conc(obj):
+    """The model writes a character outside ASCII as {hex}; substitute the character itself."""
+    if isinstance(obj, str):
+        return _PLACE.sub(lambda m: chr(int(m.group(1), 16)), obj)
+    if isinstance(obj, dict):
+        return {conc(k): conc(v) for k, v in obj.items()}
+    if isinstance(obj, list):
+        return [conc(v) for v in obj]
+    return obj
+
+
+def char_class(obj) -> str:
+    """Widest class of character in the strings of a projection: ascii < latin1 < wide."""
+    order = ['ascii', 'latin1', 'wide']
+    if isinstance(obj, str):
+        top = max(map(ord, obj), default=0)
+        return 'ascii' if top < 0x80 else 'latin1' if top < 0x100 else 'wide'
+    if isinstance(obj, dict):
+        return max((char_class(v) for v in obj.values()), key=order.index, default='ascii')
+    if isinstance(obj, list):
+        return max((char_class(v) for v in obj), key=order.index, default='ascii')
+    return 'ascii'
+
+
 def is_ascii(obj) -> bool:
     if isinstance(obj, str):
         return obj.isascii()
@@ -427,7 +456,7 @@ def is_ascii(obj) -> bool:
 
 def roundtrip(fmt: str, p: dict, src: str, feat: str = '') -> dict:
     """Build the value a projection describes, write it, read it, write what was read."""
-    rec = {'k': 'rt', 'fmt': fmt, 'orig': p, 'err': '', 'h1': '', 'h2': '', 'size': 0, 'ascii': is_ascii(p), 'feat': feat,
+    rec = {'k': 'rt', 'fmt': fmt, 'orig': p, 'err': '', 'h1': '', 'h2': '', 'size': 0, 'ascii': is_ascii(p), 'chars': char_class(p), 'feat': feat,
            'sig': {'kind': fmt, 'action': 'roundtrip', 'src': src, 'feat': feat}}
     try:
         value = BUILD[fmt](p)
@@ -577,14 +606,15 @@ class ImageWorld:
                 res['want_crc'] = crc_limbs(own_crc(NAMES[a['to']][0]))
             elif op == 'save':
                 buf = io.BytesIO()
-                choreo.save_scenes_image_sync(buf, self.img if a['how'] == 'dict' else list(self.img.values()), version=a['ver'])
+                kw = {} if a.get('enc', 'default') == 'default' else {'encoding': a['enc']}     # default: argument omitted
+                choreo.save_scenes_image_sync(buf, self.img if a['how'] == 'dict' else list(self.img.values()), version=a['ver'], **kw)
                 data = buf.getvalue()
                 self.slots[a['slot']] = data
                 res['file'] = decode_image(data)
                 res['h1'] = sha(data)
                 # write -> read -> write: the file read back and written again (as a dictionary)
                 again = io.BytesIO()
-                choreo.save_scenes_image_sync(again, choreo.parse_scenes_image(io.BytesIO(data)), version=a['ver'])
+                choreo.save_scenes_image_sync(again, choreo.parse_scenes_image(io.BytesIO(data)), version=a['ver'], **kw)
                 res['h2'] = sha(again.getvalue())
             elif op in ('load', 'merge'):
                 res['slotfile'] = decode_image(self.slots[a['slot']])
@@ -616,7 +646,7 @@ def image_records(world: 'ImageWorld', hist: list, consts: dict, src: str, only_
 
 def image_edges(edge_file: str, out: hlib.RecWriter, stats: dict, lo: int = 0, hi: int | None = None) -> None:
     data = json.load(open(edge_file))
-    consts, edges = data['consts'], data['edges']
+    consts, edges = conc(data['consts']), data['edges']
     key = lambda s: json.dumps(s, sort_keys=True)
     paths = hlib.bfs_paths(edges, key)
     for e in edges[lo:hi]:
@@ -630,9 +660,50 @@ def image_edges(edge_file: str, out: hlib.RecWriter, stats: dict, lo: int = 0, h
 
 
 # =========================================================================== cases, random, samples
+ENC_TEXT = {'ascii': ['vo.plain', 'tok.a', 'Alyx'], 'latin1': ['vo.caf\xe9', 'tok.stra\xdfe', '\xffl\xe4x'],
+            'wide': ['vo.\u20acuro', 'tok.\u03a9', '\u4e2d\u6587']}
+
+
+def image_encoding(v: dict, src: str) -> dict:
+    """Two scenes whose strings are all of one character class, written to a scenes.image with one
+    encoding argument (or none), decoded by the harness as Latin-1 and read by the real reader."""
+    snd, tok, actor = ENC_TEXT[v['chars']]
+    scenes = []
+    for j in range(2):
+        ev = base_event(f'{actor}{j}', 'Speak', params=[f'{snd}{j}', '', ''], end='1.5', cc_token=tok if j else '')
+        scenes.append(base_scene([ev], [{'name': actor, 'active': True, 'model': '', 'channels': [
+            {'name': tok, 'active': True, 'events': [base_event(snd, 'LookAt', params=[actor, '', ''])]}]}]))
+    entries = [Entry.from_scene(f'scenes/enc{j}.vcd', build_scene(sc)) for j, sc in enumerate(scenes)]
+    entries.sort(key=lambda e: e.checksum)
+    order = [int(e.filename[len('scenes/enc')]) for e in entries]
+    rec = {'k': 'imgenc', 'enc': v['enc'], 'chars': v['chars'], 'ver': v['ver'], 'how': v['how'], 'err': '',
+           'want_sounds': [list(e.sounds) for e in entries], 'want_scenes': [scenes[j] for j in order],
+           'file_sounds': [], 'read_sounds': [], 'read_scenes': [],
+           'sig': {'kind': 'imgenc', 'action': 'save', 'src': src, 'enc': v['enc'], 'chars': v['chars']}}
+    buf = io.BytesIO()
+    kw = {} if v['enc'] == 'default' else {'encoding': v['enc']}
+    arg = {e.checksum: e for e in entries} if v['how'] == 'dict' else entries
+    try:
+        choreo.save_scenes_image_sync(buf, arg, version=v['ver'], **kw)
+    except Exception as exc:
+        rec['err'] = 'write:' + type(exc).__name__
+        return rec
+    try:
+        rec['file_sounds'] = [row['sounds'] for row in decode_image(buf.getvalue())['table']]
+        back = choreo.parse_scenes_image(io.BytesIO(buf.getvalue()))
+        rec['read_sounds'] = [list(back[crc].sounds) for crc in sorted(back)]
+        rec['read_scenes'] = [proj_scene(back[crc].data) for crc in sorted(back)]
+    except Exception as exc:
+        rec['err'] = 'read:' + type(exc).__name__
+    return rec
+
+
 def run_cases(case_file: str, out: hlib.RecWriter, stats: dict) -> None:
     for case in json.load(open(case_file)):
-        out.write(roundtrip(case['fmt'], case['v'], 'mc', case.get('feat', '')))
+        if case['fmt'] == 'imgenc':
+            out.write(image_encoding(case['v'], 'mc'))
+        else:
+            out.write(roundtrip(case['fmt'], conc(case['v']), 'mc', case.get('feat', '')))
         stats['cases'] = stats.get('cases', 0) + 1
 
 
@@ -815,6 +886,8 @@ def run_replay(path: str, out: hlib.RecWriter) -> None:
     rec = rp['record']
     if rec['k'] == 'rt':
         out.write(roundtrip(rec['fmt'], rec['orig'], 'replay', rec.get('feat', '')))
+    elif rec['k'] == 'imgenc':
+        out.write(image_encoding({k: rec[k] for k in ('enc', 'chars', 'ver', 'how')}, 'replay'))
     elif rec['k'] == 'image':
         consts = rec['consts']
         for r in image_records(ImageWorld(consts['scenes']), rec['hist'], consts, 'replay', True):
